@@ -193,14 +193,17 @@ pub fn serialize(_a: &Value) -> Value {
     use jsonrpsee_types::{Notification, Request, SubscriptionId, SubscriptionPayload};
     let members = |text: &str| -> Option<Vec<(String, Value)>> { serde_json::from_str::<Members>(text).ok().map(|m| m.0) };
     let raw = serde_json::value::to_raw_value(&json!([1, {"method": "x"}])).unwrap();
+    let empty_arr = serde_json::value::to_raw_value(&json!([])).unwrap();
+    let empty_obj = serde_json::value::to_raw_value(&json!({})).unwrap();
+    // (params, when present, are a structured value - array or object - in JSON-RPC 2.0: `null` params are not part of the round-trip claim)
     for id in &ids {
-        for params in [None, Some(&*raw)] {
+        for params in [None, Some(&*raw), Some(&*empty_arr), Some(&*empty_obj)] {
             n += 1;
             let rq = Request::borrowed("say \"hi\"", params, id.clone());
             let text = serde_json::to_string(&rq).unwrap_or_default();
             let mut want = vec![("jsonrpc".to_string(), json!("2.0")), ("id".into(), id_json(id)), ("method".into(), json!("say \"hi\""))];
-            if params.is_some() {
-                want.push(("params".into(), json!([1, {"method": "x"}])));
+            if let Some(p) = params {
+                want.push(("params".into(), serde_json::from_str::<Value>(p.get()).unwrap()));
             }
             if members(&text) != Some(want.clone()) {
                 why.push(format!("request written as {text}, expected members {want:?}"));
